@@ -27,7 +27,7 @@
 
    Only statements closed by `exact`, each followed by Print Assumptions. *)
 From Coq Require Import ZArith List Bool Arith Permutation Sorted String.
-From MV Require Import Par.NormaliseDefs Par.Normalise Par.NormaliseGen Gen.Idioms.
+From MV Require Import Par.NormaliseDefs Par.Normalise Par.NormaliseGen Par.NormaliseC13 Par.ParDefs Gen.Idioms.
 Import ListNotations.
 
 (* (a) sort_after_combine: records of a parallel loop are appended to
@@ -53,6 +53,19 @@ Theorem stable_sort_exists :
   forall l : list A, is_stable_sort_of lt l (stable_sort lt l).
 Proof. exact (@stable_sort_spec). Qed.
 Print Assumptions stable_sort_exists.
+
+(* manifold::stable_sort on the parallel path: C13's model of mergeSort /
+   mergeSortRec / mergeRec (Par/ParDefs.merge_sort; proved equal to the stable
+   insertion sort in Par/SortModel.v, tied to src/parallel.h by C13's
+   correspondence and by the StableMergeBounds entry of the generated table)
+   terminates and meets the stable-sort specification used above, for every
+   strict weak order, every sequential threshold >= 2 and every input. *)
+Theorem parallel_merge_sort_meets_stable_spec :
+  forall (A : Type) (lt : A -> A -> bool), strict_weak lt ->
+  forall (thr : nat) (l : list A), 2 <= thr ->
+    exists o, merge_sort lt thr l = Some o /\ is_stable_sort_of lt l o.
+Proof. exact (@parallel_merge_sort_meets_spec_lemma). Qed.
+Print Assumptions parallel_merge_sort_meets_stable_spec.
 
 (* Intersect12_ (boolean3.cpp:288-375): the comparator is the ported lambda on
    (p1q2[index], p1q2[1-index]); no injectivity hypothesis is needed because
